@@ -10,6 +10,7 @@ import (
 	"os"
 	"path"
 	"path/filepath"
+	"runtime/debug"
 	"sort"
 	"strings"
 	"sync"
@@ -338,8 +339,13 @@ func consume(p *Pipe, pd *pipeData, store desync.Store) (err error, diff string)
 	}
 	go func() {
 		var r result
+		defer func() {
+			if x := recover(); x != nil {
+				r.err, r.diff = errPanic, fmt.Sprintf("%v\n%s", x, debug.Stack())
+			}
+			done <- r
+		}()
 		r.err, r.diff = consumeNow(p, pd, store, rs)
-		done <- r
 	}()
 	start := cpuTime()
 	tick := time.NewTicker(5 * time.Millisecond)
@@ -532,6 +538,8 @@ func runPipeline(c Case) (o hx.Outcome) {
 		err, diff := consume(p, pd, cs)
 		fetched := cs.asked(victim.id) > 0
 		switch {
+		case err == errPanic:
+			o.Fail("C03:"+p.Consumer+":panic", "the consumer panicked on an index entry whose size differs from the (valid) chunk: %s — %s", clip(diff), where)
 		case err == errHang:
 			o.Fail("C03:"+p.Consumer+":hang", "the consumer spun for %s of processor time without returning on an index entry whose size differs from the (valid) chunk — %s", spinBudget, where)
 		case err == nil && p.Consumer == cReadSeeker:
@@ -541,7 +549,7 @@ func runPipeline(c Case) (o hx.Outcome) {
 		default:
 			o.Class("result:error")
 		}
-		o.Nontrivial = fetched || err == errHang
+		o.Nontrivial = fetched || err == errHang || err == errPanic
 		o.Key = fmt.Sprintf("inconsistent/%s/%s/%s/%s/%s", p.Consumer, lf.kind, fmtn, dir, st.shapeString())
 		return o
 	}
@@ -559,6 +567,8 @@ func runPipeline(c Case) (o hx.Outcome) {
 	err, diff := consume(p, pd, cs)
 	fetched := cs.asked(victim.id) > 0
 	switch {
+	case err == errPanic:
+		o.Fail("C03:"+p.Consumer+":panic", "the consumer panicked: %s — %s", clip(diff), where)
 	case err == errHang:
 		o.Fail("C03:"+p.Consumer+":hang", "the consumer spun for %s of processor time without returning — %s", spinBudget, where)
 	case err != nil:
